@@ -143,6 +143,8 @@ pub struct Core {
     pub redact: HashSet<String>,
     /// called (with no borrow held) at every decorated invocation and stream write
     pub yield_hook: Option<fn()>,
+    /// consulted before the observer: may answer instead of the real command (workload-level fault plan)
+    pub pre_hook: Option<fn(&mut Core, &StartInfo) -> Option<CommandResult>>,
     /// max nested invocations seen inside one depth-0 invocation
     pub nested_in_current: u64,
     pub max_nested: u64,
@@ -169,6 +171,7 @@ impl Core {
             registry_len: 0,
             redact: HashSet::new(),
             yield_hook: None,
+            pre_hook: None,
             nested_in_current: 0,
             max_nested: 0,
             max_nested_cmd: String::new(),
@@ -397,15 +400,23 @@ impl Command for Wrapped {
         let mut result = if over_budget {
             CommandResult::Crash("dsim-budget".to_string())
         } else {
-            // observer may inject
+            // workload fault plan, then observer, may inject
+            let pre = SIM.with(|s| {
+                let mut s = s.borrow_mut();
+                match s.core.pre_hook {
+                    Some(h) => h(&mut s.core, &info),
+                    None => None,
+                }
+            });
             let mut obs = SIM.with(|s| s.borrow_mut().observer.take());
-            let injected = match obs.as_mut() {
+            // the observer always sees the start (bookkeeping); a workload-level injection takes precedence
+            let injected = { let from_obs = match obs.as_mut() {
                 Some(o) => SIM.with(|s| {
                     let mut s = s.borrow_mut();
                     o.on_start(&mut s.core, &info, variables, state, env)
                 }),
                 None => None,
-            };
+            }; if pre.is_some() { pre } else { from_obs } };
             SIM.with(|s| s.borrow_mut().observer = obs);
             match injected {
                 Some(r) => r,
@@ -690,4 +701,37 @@ pub fn count_steps(log: &[Event]) -> u64 {
     log.iter()
         .filter(|e| matches!(e, Event::Start { .. } | Event::Op { .. }))
         .count() as u64
+}
+
+// ---------------------------------------------------------------- handle normalisation
+
+/// Replace every `handle:<20 alphanumerics>` by `handle:#<n>`, n = order of first appearance.
+pub fn norm_handles(text: &str, seen: &mut Vec<String>) -> String {
+    if !text.contains("handle:") {
+        return text.to_string();
+    }
+    let mut out = String::new();
+    let mut rest = text;
+    while let Some(i) = rest.find("handle:") {
+        out.push_str(&rest[..i]);
+        let tail = &rest[i + 7..];
+        let n = tail.chars().take(20).take_while(|c| c.is_ascii_alphanumeric()).count();
+        if n == 20 {
+            let name = &tail[..20];
+            let idx = match seen.iter().position(|s| s == name) {
+                Some(p) => p,
+                None => {
+                    seen.push(name.to_string());
+                    seen.len() - 1
+                }
+            };
+            out.push_str(&format!("handle:#{}", idx));
+            rest = &tail[20..];
+        } else {
+            out.push_str("handle:");
+            rest = tail;
+        }
+    }
+    out.push_str(rest);
+    out
 }
